@@ -81,13 +81,15 @@ SEL_BOUNDS = ("one selection over N fully symbolic links (every field the select
 PROPS["C03"] = dict(
     functions=SEL_FUNCS,
     bounds=SEL_BOUNDS + "; N = 2 (quick), 3 (thorough; classic also 4)",
-    stubs=["selection::enhanced::in_flight_cap_exceeded and cc_soft_cap_multiplier -> deterministic abstractions ranging over the leaves' whole "
-           "documented range (quick-tier enhanced harnesses; the thorough tier also runs the real leaves)"],
+    stubs=["selection::enhanced::in_flight_cap_exceeded and cc_soft_cap_multiplier -> their exact tables on the 'leaf domain' (rtt_min 1000 ms, CC target "
+           "in {0, 8001, 10^12} bit/s, measured rate in {0, target/2, target}); exactness of the tables is decided by c11_leaf_tables_exact, so "
+           "counterexamples replay natively on the real functions; the thorough tier also runs the real leaves on unconstrained inputs"],
     assumptions=["clock values <= 2^48 ms", "enhanced harnesses: 50 ms quality cache fresh (exp() path decided separately in C11)"],
     outside="N > 4 links; the stale-quality-cache path (exp) in the enhanced selector is covered by C11's contract-stubbed harness",
     harnesses=[
         H("c03::c03_classic_n2", "core", desc="C03/C04(i)/C12(a) on one classic selection, 2 links", bounds="N=2"),
         H("c03::c03_enhanced_n2", "core", desc="C03/C04(i)/C12(a) on one enhanced selection, 2 links", bounds="N=2"),
+        H("c11::c11_leaf_tables_exact", "core", desc="the leaf tables used by the enhanced harnesses are exact on their domain"),
         H("c03::c03_classic_n3", "core", tier="thorough", desc="same, 3 links", bounds="N=3", timeout=3000),
         H("c03::c03_classic_n4", "core", tier="thorough", desc="same, 4 links", bounds="N=4", timeout=3000),
         H("c03::c03_enhanced_n3", "core", tier="thorough", desc="same, 3 links (abstracted leaves)", bounds="N=3", timeout=3000),
@@ -123,8 +125,8 @@ PROPS["C15"] = dict(
 PROPS["C04"] = dict(
     functions=SEL_FUNCS,
     bounds=SEL_BOUNDS + "; N = 2 (quick), 3 (thorough; classic also 4)",
-    stubs=["selection::enhanced::in_flight_cap_exceeded and cc_soft_cap_multiplier -> deterministic abstractions over their documented range "
-           "(quick-tier enhanced harnesses)"],
+    stubs=["selection::enhanced::in_flight_cap_exceeded and cc_soft_cap_multiplier -> their exact tables on the leaf domain (see C03 / "
+           "c11_leaf_tables_exact)"],
     assumptions=["clock values <= 2^48 ms", "enhanced harnesses: 50 ms quality cache fresh"],
     outside="ONLY THE SCHEDULER LAYER IS DECIDED (normal scheduling and score hysteresis: whatever select_connection_idx returns has completed "
             "registration since its last reset, is not timed out and is not stall-gated after the call). The keyframe-window / SRT-retransmit "
@@ -185,16 +187,18 @@ PROPS["C11"] = dict(
                "SrtlaConnection::{get_cached_quality_multiplier, phase_weight, is_timed_out, is_schedulable}", "apply_stall_gate"],
     bounds="ranges: every link state and clock (quality multiplier), every u64 target and f64 RTT incl. NaN/inf (BDP cap). Selection oracle: 2 links "
            "(thorough 3), every gate/phase/eligibility field symbolic, any config, any previous index; score factors drawn from a grid - quality in "
-           "{0.35, 0.5, 1.0, 1.1, 1.133}, soft cap in {0.1, 0.5, 1.0}, capacity score in {0, 10, 11, 20, 22, 1000} (contains the range extremes, "
-           "ties and pairs exactly 10 % apart)",
-    stubs=["f64::exp -> contract (x <= 0 -> (0, 1])", "SrtlaConnection::get_score, enhanced::in_flight_cap_exceeded, enhanced::cc_soft_cap_multiplier "
-           "-> deterministic abstractions over otherwise unused symbolic fields (their real formulas / ranges are decided separately)"],
+           "{0.35, 0.5, 1.0, 1.1, 1.133}, soft cap in {0.1, 0.5, 1.0} (leaf domain), capacity score in {0, 10, 11, 20, 22, 1000} (contains the range "
+           "extremes, ties and pairs exactly 10 % apart); soft-cap range: every target / measured rate",
+    stubs=["f64::exp -> contract (x <= 0 -> (0, 1])", "SrtlaConnection::get_score -> deterministic abstraction over an otherwise unused symbolic "
+           "field (real formula: c10_get_score_formula)", "enhanced::in_flight_cap_exceeded, enhanced::cc_soft_cap_multiplier -> exact tables on the "
+           "leaf domain (c11_leaf_tables_exact)"],
     assumptions=["clock values <= 2^48 ms", "quality cache fresh in the selection harness (the cached multiplier is what the selector multiplies by)"],
-    outside="fully symbolic f64 score factors in the selection oracle (SAT did not finish on two symbolic product pipelines); the soft-cap "
-            "factor's own range [0.1, 1] (cc_soft_cap_multiplier is private; it is a clamp(0.1, 1.0) by inspection, not decided); N > 3",
+    outside="fully symbolic f64 score factors in the selection oracle (SAT did not finish on two symbolic product pipelines); N > 3",
     harnesses=[
         H("c11::c11_quality_multiplier_range", "core", desc="quality multiplier finite and within [0.35, 1.1 x 1.03] for every state/clock"),
         H("c11::c11_in_flight_cap_range", "core", desc="BDP in-flight cap >= 1, defined for every input"),
+        H("c11::c11_soft_cap_range", "core", desc="soft-cap factor within [0.1, 1] for every target / measured rate"),
+        H("c11::c11_leaf_tables_exact", "core", desc="the tables standing in for the two f64 leaves equal the real functions on the leaf domain"),
         H("c11b::c11_enhanced_oracle_n2", "core", desc="enhanced choice == recomposed oracle: gate precedence, 0.8 warming, 0.02 penalty, 1.10 hysteresis, capped link never chosen while an unconstrained one exists, re-run stability", bounds="N=2, grid", timeout=2400),
         H("c11b::c11_enhanced_oracle_n3", "core", tier="thorough", desc="same, 3 links", bounds="N=3, grid", timeout=6000),
     ],
@@ -205,12 +209,14 @@ PROPS["C12"] = dict(
     bounds=SEL_BOUNDS + "; N = 2 (quick), 3 (thorough)",
     stubs=[],
     assumptions=["clock values <= 2^48 ms", "enhanced harnesses: 50 ms quality cache fresh"],
-    outside="histories of selections are covered inductively: each selection starts from an arbitrary state (any latch/pull history)",
+    outside="histories of selections are covered inductively: each selection starts from an arbitrary state (any latch/pull history). The "
+            "guard-off == clean-history twin is decided for classic mode only: the enhanced twin (c12_guard_off_enhanced_n2, kept in the source) is a "
+            "relational query over two f64 score pipelines that did not finish in 50 min; for enhanced mode the clause rests on 'guard off clears "
+            "every stall field' (decided in c03_enhanced_n2) plus the selector reading no other guard-private state",
     harnesses=[
         H("c03::c03_classic_n2", "core", desc="projection of liveness/accounting state unchanged by a classic selection"),
         H("c03::c03_enhanced_n2", "core", desc="projection unchanged by an enhanced selection"),
         H("c10::c12_guard_off_classic_n2", "core", desc="guard off: flags cleared, decision == decision with clean stall history"),
-        H("c10::c12_guard_off_enhanced_n2", "core", tier="thorough", desc="same, enhanced (relational query over two f64 score pipelines; may exceed the budget)", timeout=3000),
         H("c13::c13_latch_step", "core", desc="latch update touches guard-private fields only"),
         H("c10::c12_guard_off_classic_n3", "core", tier="thorough", bounds="N=3", timeout=3000),
         H("c03::c03_classic_n3", "core", tier="thorough", bounds="N=3", timeout=3000),
@@ -287,7 +293,7 @@ PROPS["C01"] = dict(
                "BatchRegime::{from_bps, batch_size}", "SrtlaConnection::{queue_data_packet, take_batch, register_packet, stall_probe_due}",
                "BitrateTracker::update_on_send"],
     bounds="sequences of exactly n datagrams, n in {0,1,2,4,5} (quick) + {16,17,32,33} (thorough), each of 1..4 symbolic bytes with symbolic "
-           "sequence number and queue time, any regime; flush predicates at depths {0,3,15} (+{20,31}); take_batch with 3 queued datagrams; "
+           "sequence number and queue time, regime concrete per instance (all three occur, below / at / one past the threshold); flush predicates at depths {0,3,15} (+{20,31}); take_batch with 3 queued datagrams; "
            "probe counter any value 0..99",
     stubs=[],
     assumptions=["payload <= 4 bytes per datagram in the Kani build (SmallVec copy is length-generic; model capacity 40 elements)",
@@ -298,11 +304,12 @@ PROPS["C01"] = dict(
             "datagram accepted by a link's queue is handed to the flush exactly once, in order, unchanged, after at most 32 datagrams or the "
             "first timer check >= 15 ms after the previous flush. Which link a datagram is queued on is C03/C04.",
     harnesses=[
-        H("c01::c01_fifo_integrity_0", "core", desc="queue then drain == same datagrams, order, bytes/seq/time; threshold return value; no duplicates; reset empties", bounds="exactly 0 datagrams"),
-        H("c01::c01_fifo_integrity_1", "core", desc="same", bounds="exactly 1 datagram"),
-        H("c01::c01_fifo_integrity_2", "core", desc="same", bounds="exactly 2 datagrams"),
-        H("c01::c01_fifo_integrity_4", "core", desc="same (low-activity batch)", bounds="exactly 4 datagrams"),
-        H("c01::c01_fifo_integrity_5", "core", desc="same", bounds="exactly 5 datagrams"),
+        H("c01::c01_fifo_0_normal", "core", desc="queue then drain == same datagrams, order, bytes/seq/time; flush request at the threshold; nothing dropped past it; no duplicates; reset empties", bounds="exactly 0 datagrams, regime normal"),
+        H("c01::c01_fifo_1_low", "core", desc="queue then drain == same datagrams, order, bytes/seq/time; flush request at the threshold; nothing dropped past it; no duplicates; reset empties", bounds="exactly 1 datagrams, regime low activity"),
+        H("c01::c01_fifo_2_normal", "core", desc="queue then drain == same datagrams, order, bytes/seq/time; flush request at the threshold; nothing dropped past it; no duplicates; reset empties", bounds="exactly 2 datagrams, regime normal"),
+        H("c01::c01_fifo_4_low", "core", desc="queue then drain == same datagrams, order, bytes/seq/time; flush request at the threshold; nothing dropped past it; no duplicates; reset empties", bounds="exactly 4 datagrams, regime low activity"),
+        H("c01::c01_fifo_5_low", "core", desc="queue then drain == same datagrams, order, bytes/seq/time; flush request at the threshold; nothing dropped past it; no duplicates; reset empties", bounds="exactly 5 datagrams, regime low activity (one past the threshold)"),
+        H("c01::c01_fifo_5_high", "core", desc="queue then drain == same datagrams, order, bytes/seq/time; flush request at the threshold; nothing dropped past it; no duplicates; reset empties", bounds="exactly 5 datagrams, regime high load"),
         H("c01::c01_flush_predicates_d0", "core", desc="timer flush iff non-empty and >=15 ms; threshold of the current regime; <= 32", bounds="depth 0"),
         H("c01::c01_flush_predicates_d3", "core", desc="same", bounds="depth 3"),
         H("c01::c01_flush_predicates_d15", "core", desc="same", bounds="depth 15"),
@@ -311,10 +318,12 @@ PROPS["C01"] = dict(
         H("c01::c01_probe_cadence_step", "core", desc="one probe per 100 calls from any counter state"),
         H("c01::c01_flush_predicates_d20", "core", tier="thorough", desc="same", bounds="depth 20", timeout=3000),
         H("c01::c01_flush_predicates_d31", "core", tier="thorough", desc="same", bounds="depth 31", timeout=3000),
-        H("c01::c01_fifo_integrity_16", "core", tier="thorough", desc="same (normal batch)", bounds="exactly 16 datagrams", timeout=3000),
-        H("c01::c01_fifo_integrity_17", "core", tier="thorough", desc="same", bounds="exactly 17 datagrams", timeout=3000),
-        H("c01::c01_fifo_integrity_32", "core", tier="thorough", desc="same (high-load batch)", bounds="exactly 32 datagrams", timeout=3000),
-        H("c01::c01_fifo_integrity_33", "core", tier="thorough", desc="same", bounds="exactly 33 datagrams", timeout=3000),
+        H("c01::c01_fifo_16_normal", "core", tier="thorough", desc="same", bounds="exactly 16 datagrams, regime normal", timeout=3000),
+        H("c01::c01_fifo_17_normal", "core", tier="thorough", desc="same", bounds="exactly 17 datagrams, regime normal (one past)", timeout=3000),
+        H("c01::c01_fifo_17_low", "core", tier="thorough", desc="same", bounds="exactly 17 datagrams, regime low activity", timeout=3000),
+        H("c01::c01_fifo_32_high", "core", tier="thorough", desc="same", bounds="exactly 32 datagrams, regime high load", timeout=3000),
+        H("c01::c01_fifo_33_high", "core", tier="thorough", desc="same", bounds="exactly 33 datagrams, regime high load (one past)", timeout=3000),
+        H("c01::c01_fifo_33_normal", "core", tier="thorough", desc="same", bounds="exactly 33 datagrams, regime normal", timeout=3000),
     ],
 )
 
@@ -336,6 +345,7 @@ PROPS["C05"] = dict(
         H("c05::c05_n2_named0", "shell", desc="tracker remembers link 0 as carrier", timeout=1500),
         H("c05::c05_n2_removed", "shell", desc="tracker names a link that was removed", timeout=1500),
         H("c05::c05_n2_norecord", "shell", desc="no valid record: empty / collision / expired", timeout=1500),
+        H("c05::c05_fallback_two_holders", "shell", desc="minimal fallback instance: two holders, no record -> only the first is charged"),
         H("c19::c19_tracker_purge", "shell", desc="remove_connection purges exactly the removed link's records"),
     ],
 )
@@ -386,7 +396,60 @@ PARKED_C09 = dict(
     ],
 )
 
+PROPS["C16"] = dict(
+    functions=["LinkCongestionState::{tick, update_loss_ewma, update_backoff_efficacy, pick_climb_mode, evict_expired, loss_permille}"],
+    bounds="one tick from an arbitrary controller state: pre-tick target from the grid {100000, 117000, 1000000, 150000000, 200000000} (symbolic in the "
+           "bootstrap / hold / loss-latch harnesses), measured throughput any value up to 2^40, any state / latches / counters (under the "
+           "counter invariants backoff_ticks <= 3, uncongestive_ticks < 30, fast_recovery_ticks <= 5), at most one loss sample with any u32 "
+           "sent / lost counts and any age, loss average any value in [0, 1], measured throughput any u64, clock 1..2^48; RTT inputs from a grid "
+           "(none yet / inflation 1.0, 1.6, 2.0, 4.5; variance stable / jittery)",
+    stubs=["f64::exp -> contract (x <= 0 -> (0, 1])"],
+    assumptions=["counter invariants above (each counter is reset by the code before it can exceed its bound)", "clock values <= 2^48 ms",
+                 "'initial seeding' = the first tick after bootstrap (previous state Bootstrap)"],
+    outside="record_rtt / observe_traffic / record_loss (how the inputs of tick are accumulated, incl. counter resets after reconnect) and "
+            "LinkCcController::tick_all (std HashMap garbage collection of vanished links) are not decided; more than one loss sample in the window; "
+            "fully symbolic RTT values",
+    harnesses=[
+        H("c16::c16_target_noloss_bootstrap", "core", desc="one tick: no RTT yet: bootstrap, floor (symbolic target)", timeout=3000),
+        H("c16::c16_target_noloss_hold", "core", desc="one tick: no loss, inflation 1.6: hold (symbolic target)", timeout=3000),
+        H("c16::c16_climb_floor", "core", desc="one tick: no loss, flat RTT from target 100000: climb <= 6 %, <= 2x measured; seeding only on the first tick after bootstrap", timeout=3000),
+        H("c16::c16_climb_117k", "core", desc="one tick: no loss, flat RTT from target 117000: climb <= 6 %, <= 2x measured; seeding only on the first tick after bootstrap", timeout=3000),
+        H("c16::c16_climb_1m", "core", desc="one tick: no loss, flat RTT from target 1000000: climb <= 6 %, <= 2x measured; seeding only on the first tick after bootstrap", timeout=3000),
+        H("c16::c16_climb_150m", "core", desc="one tick: no loss, flat RTT from target 150000000: climb <= 6 %, <= 2x measured; seeding only on the first tick after bootstrap", timeout=3000),
+        H("c16::c16_climb_ceiling", "core", desc="one tick: no loss, flat RTT from target 200000000: climb <= 6 %, <= 2x measured; seeding only on the first tick after bootstrap", timeout=3000),
+        H("c16::c16_drain_floor", "core", desc="one tick: no loss, inflation 2.0 from target 100000: drain entry cuts to 75 % once", timeout=3000),
+        H("c16::c16_drain_117k", "core", desc="one tick: no loss, inflation 2.0 from target 117000: drain entry cuts to 75 % once", timeout=3000),
+        H("c16::c16_drain_1m", "core", desc="one tick: no loss, inflation 2.0 from target 1000000: drain entry cuts to 75 % once", timeout=3000),
+        H("c16::c16_drain_ceiling", "core", desc="one tick: no loss, inflation 2.0 from target 200000000: drain entry cuts to 75 % once", timeout=3000),
+        H("c16::c16_backoff_floor", "core", desc="one tick: loss sample, flat RTT from target 100000: back-off to 85 %, never below delivered, never raising", timeout=3000),
+        H("c16::c16_backoff_117k", "core", desc="one tick: loss sample, flat RTT from target 117000: back-off to 85 %, never below delivered, never raising", timeout=3000),
+        H("c16::c16_backoff_1m", "core", desc="one tick: loss sample, flat RTT from target 1000000: back-off to 85 %, never below delivered, never raising", timeout=3000),
+        H("c16::c16_backoff_150m", "core", desc="one tick: loss sample, flat RTT from target 150000000: back-off to 85 %, never below delivered, never raising", timeout=3000),
+        H("c16::c16_backoff_ceiling", "core", desc="one tick: loss sample, flat RTT from target 200000000: back-off to 85 %, never below delivered, never raising", timeout=3000),
+        H("c16::c16_lossy_drain_1m", "core", desc="one tick: loss sample, inflation 4.5 from target 1000000", timeout=3000),
+        H("c16::c16_loss_latch_rules", "core", desc="loss-degraded latches only after > 0.55 for 4 s, clears only < 0.25; average stays in [0,1]", timeout=1500),
+    ],
+)
+
+PARKED_C17 = dict(
+    functions=["WeakLinkFilter::classify (with derive_max_delay_budget, target_*_delay_ms, pick_tier)", "SrtlaConnection::{get_smooth_rtt_ms, queue_building_suspected}"],
+    bounds="one classify() over 2 links from an arbitrary hysteresis memory per link (previous verdict, delay streak 0..1000, share-weak streak "
+           "0..14, probation 0..3), any connectivity; bitrates from the grid {0, 10k, 60k, 200k, 1M, 3M} bit/s and smoothed RTTs from {none, 50, "
+           "400, 3000} ms (both sides of the 100 kbit/s bypass floor, of the enter / leave share thresholds and of the delay tiers)",
+    stubs=["std::hash::RandomState::new -> fixed keys (the real std HashMaps / hashbrown are executed)"],
+    assumptions=["invariant weak_streak < 15 and probation <= 3 assumed on the memory and re-asserted on the post-state",
+                 "the queue-building signal is off (fresh RTT trackers): the delay clause is exercised through the RTT-over-tier signal"],
+    outside="fully symbolic bitrates / RTTs; more than 2 links; links joining and leaving between ticks (memory for unknown ids); the "
+            "queue-building delay signal",
+    harnesses=[
+        H("c17::c17_classify_step", "core", desc="never weak when disconnected / under the floor; delay needs two ticks; probation after 15 share-weak verdicts; enter < 1/4, leave >= 3/4 of fair share; INV preserved", timeout=3000),
+    ],
+)
+
 NOT_APPLICABLE = {
+    "C17": "a one-tick harness over the real WeakLinkFilter::classify exists (hk/core/src/c17.rs: 2 links, arbitrary hysteresis memory, real std "
+           "HashMaps with a fixed-key RandomState) and compiles, but CBMC's symbolic execution of the four hashbrown maps did not finish within "
+           "50 minutes, so nothing is decided",
     "C09": "the harness over the real process_uplink_packet (hk/shell/src/c09.rs, 10 instances by datagram type, async fn polled with "
            "kani::block_on, socket entry points stubbed) compiles and encodes, but every instance - even the one for 0..1-byte datagrams - "
            "drives CBMC past 12-14 GB within 10 minutes (the SrtlaIncoming result carries nested vector models through the async state "
